@@ -341,4 +341,245 @@ theorem readPtr_wf (m : Msg) (seg : Nat) (paddr depth rl : Int) (hm : MsgOK m) (
                 exact ⟨⟨hso, hc.1, hc.2, trivial, by omega⟩, by omega, by omega⟩
             · simp [Safe]; omega
 
+/-! ## accessors on well-formed objects never fault -/
+
+theorem elem_bound (i len sz : Int) (h1 : i < len) (hs : 0 ≤ sz) : i * sz + sz ≤ len * sz := by
+  have : (i + 1) * sz ≤ len * sz := Int.mul_le_mul_of_nonneg_right (by omega) hs
+  rw [Int.add_mul, Int.one_mul] at this
+  exact this
+
+theorem pointerAddress_spec (m : Msg) (s : StructP) (i : Int) (hw : StructWF m s) (hi : 0 ≤ i ∧ i < s.size.PointerCount) :
+    s.pointerAddress i = s.off + s.size.DataSize + 8 * i := by
+  obtain ⟨⟨a, b, c, d⟩, h0, h1, h2⟩ := hw
+  unfold StructP.pointerAddress
+  simp only
+  rw [addSize_spec s.off s.size.DataSize (by unfold InU32; omega) (by unfold InU32; omega)]
+  rw [if_neg (by omega)]
+  simp only
+  rw [wrapI32_id i (by omega), element_spec _ i 8 (by unfold InU32; omega) (by omega) (by omega)]
+  rw [if_neg (by omega)]
+  simp only; omega
+
+/-- `Struct.Ptr(i)` for any index: never a panic, result as for `readPtr` -/
+theorem struct_ptr_safe (m : Msg) (s : StructP) (i rl : Int) (hm : MsgOK m) (hw : StructWF m s) (hs : SegOK m s.seg)
+    (hi : 0 ≤ i) (hd : 0 ≤ s.depth ∧ s.depth < 18446744073709551616) (hrl : 0 ≤ rl) :
+    Safe (s.ptr m i rl).1 (PtrOK m s.depth rl (s.ptr m i rl).2) ∧ 0 ≤ (s.ptr m i rl).2 ∧ (s.ptr m i rl).2 ≤ rl := by
+  unfold StructP.ptr
+  split
+  · simp [Safe, PtrOK]; omega
+  · rename_i hlt
+    have hpa := pointerAddress_spec m s i hw ⟨hi, by omega⟩
+    obtain ⟨⟨a, b, c, d⟩, h0, h1, h2⟩ := hw
+    exact readPtr_wf m s.seg _ s.depth rl hm hs (by rw [hpa]; omega) (by rw [hpa]; omega) hd hrl
+
+/-- `Struct.HasPtr(i)` -/
+theorem struct_hasPtr_safe (m : Msg) (s : StructP) (i : Int) (hm : MsgOK m) (hw : StructWF m s) (hi : 0 ≤ i) :
+    Safe (s.hasPtr m i) (fun _ => True) := by
+  unfold StructP.hasPtr
+  split
+  · exact trivial
+  · rename_i hlt
+    have hpa := pointerAddress_spec m s i hw ⟨hi, by omega⟩
+    obtain ⟨⟨a, b, c, d⟩, h0, h1, h2⟩ := hw
+    obtain ⟨v, hv, _⟩ := readRawPointer_ok m s.seg (s.pointerAddress i) hm (by rw [hpa]; omega) (by rw [hpa]; omega)
+    rw [hv]; exact trivial
+
+/-- `Struct.Uint8/16/32/64(off)` for every documented offset (`DataOffset` is bounded to `[0, 1<<19)`):
+    inside the data section it reads in bounds, outside it yields the default 0 without touching memory -/
+theorem struct_uint_safe (m : Msg) (s : StructP) (off : Int) (w : Nat) (hm : MsgOK m) (hw : StructWF m s)
+    (ho : 0 ≤ off ∧ off < 524288) (hww : 1 ≤ w ∧ w ≤ 8) :
+    Safe (s.uint m off w) (fun v => 0 ≤ v ∧ (off + w > s.size.DataSize → v = 0)) := by
+  obtain ⟨⟨a, b, c, d⟩, h0, h1, h2⟩ := hw
+  unfold StructP.uint
+  rw [wrapU32_id (off + w) (by omega)]
+  split
+  · simp [Safe]
+  · rename_i hle
+    unfold address_addOffset
+    rw [if_neg (by simp; omega)]
+    simp only [Err.bind]
+    rw [wrapU32_id off (by omega), wrapU32_id (s.off + off) (by omega)]
+    obtain ⟨v, hv, _⟩ := readUint_ok m s.seg (s.off + off) w hm (by omega) hww.2 (by omega)
+    rw [hv]; simp only [Safe]; omega
+
+/-- `Struct.Bit(n)` for every documented bit offset (`BitOffset` is bounded to `[0, 1<<22)`) -/
+theorem struct_bit_safe (m : Msg) (s : StructP) (n : Int) (hm : MsgOK m) (hw : StructWF m s)
+    (hn : 0 ≤ n ∧ n < 4194304) : Safe (s.bit m n) (fun _ => True) := by
+  obtain ⟨⟨a, b, c, d⟩, h0, h1, h2⟩ := hw
+  unfold StructP.bit
+  rw [wrapU32_id (s.size.DataSize * 8) (by omega)]
+  split
+  · exact trivial
+  · rename_i hlt
+    simp only [Bool.not_eq_true, decide_eq_false_iff_not, Int.not_lt, Classical.not_not] at hlt
+    have hlt' : n < s.size.DataSize * 8 := by
+      by_cases h : n < s.size.DataSize * 8
+      · exact h
+      · simp [h] at hlt
+    unfold BitOffset_offset address_addOffset
+    rw [wrapU32_id (n / 8) (by omega)]
+    rw [if_neg (by simp; omega)]
+    simp only [Err.bind]
+    rw [wrapU32_id (n / 8) (by omega), wrapU32_id (s.off + n / 8) (by omega)]
+    obtain ⟨v, hv, _⟩ := readUint_ok m s.seg (s.off + n / 8) 1 hm (by omega) (by omega) (by omega)
+    rw [hv]; exact trivial
+
+theorem listSize_bound (l : ListP) (hs : SizeOK l.size) :
+    ObjectSize_totalSize l.size = l.size.DataSize + 8 * l.size.PointerCount ∧
+    0 ≤ l.size.DataSize + 8 * l.size.PointerCount ∧ l.size.DataSize + 8 * l.size.PointerCount ≤ 1048576 := by
+  obtain ⟨a, b, c, d⟩ := hs
+  exact ⟨totalSize_spec _ ⟨a, b⟩ ⟨c, d⟩, by omega, by omega⟩
+
+/-- `List.Struct(i)` for `0 ≤ i < Len()`: the element struct lies inside the list (hence inside the
+    segment) and its depth budget is never larger than the list's -/
+theorem list_struct_wf (m : Msg) (l : ListP) (i : Int) (hw : ListWF m l) (hi : 0 ≤ i ∧ i < l.length)
+    (hd : 0 ≤ l.depth) (st : StructP) (hst : l.structAt i = some st) :
+    StructWF m st ∧ st.seg = l.seg ∧ 0 ≤ st.depth ∧ st.depth ≤ l.depth ∧ (l.depth > 0 → st.depth < l.depth) := by
+  obtain ⟨hsz, h0, hl0, hl1, hb1, hb2, hfl⟩ := hw
+  obtain ⟨ets, etn, etb⟩ := listSize_bound l hsz
+  unfold ListP.structAt at hst
+  by_cases hnb : l.flags = isBitList
+  · simp [hnb] at hst
+  · have hcb : contentBytes l = (l.size.DataSize + 8 * l.size.PointerCount) * l.length := by
+      unfold contentBytes; rw [if_neg hnb]
+    rw [hcb] at hb1 hb2
+    have hel := elem_bound i l.length _ hi.2 etn
+    have hnn : 0 ≤ i * (l.size.DataSize + 8 * l.size.PointerCount) := Int.mul_nonneg hi.1 etn
+    rw [Int.mul_comm _ l.length] at hb1 hb2
+    rw [if_neg hnb] at hst
+    simp only at hst
+    rw [ets, wrapI32_id i (by omega), element_spec l.off i _ (by unfold InU32; omega) ⟨etn, etb⟩ (by omega)] at hst
+    generalize i * (l.size.DataSize + 8 * l.size.PointerCount) = p at *
+    generalize l.length * (l.size.DataSize + 8 * l.size.PointerCount) = q at *
+    have hcond : ¬ (l.off + p > 4294967288 ∨ l.off + p < 0) := by omega
+    rw [if_neg hcond] at hst
+    simp only [Bool.not_true, Bool.false_eq_true, ↓reduceIte, Option.some.injEq] at hst
+    subst hst
+    refine ⟨⟨hsz, by simp only; omega, by simp only; omega, by simp only; omega⟩, rfl, ?_, ?_, ?_⟩
+    · simp only; split <;> omega
+    · simp only; split <;> omega
+    · intro h; simp only; rw [if_neg (by omega)]; omega
+
+/-- `List.primitiveElem` for `0 ≤ i < Len()`: an address whose whole element lies inside the list -/
+theorem primitiveElem_ok (m : Msg) (l : ListP) (i : Int) (exp : ObjectSize) (hw : ListWF m l) (hi : 0 ≤ i ∧ i < l.length) :
+    Safe (l.primitiveElem i exp) (fun a => 0 ≤ a ∧ a + (l.size.DataSize + 8 * l.size.PointerCount) ≤ m.segLen l.seg ∧
+      l.flags ≠ isBitList ∧ (l.flags ≠ isCompositeList → l.size = exp) ∧
+      (l.flags = isCompositeList → exp.DataSize ≤ l.size.DataSize ∧ exp.PointerCount ≤ l.size.PointerCount)) := by
+  obtain ⟨hsz, h0, hl0, hl1, hb1, hb2, hfl⟩ := hw
+  obtain ⟨ets, etn, etb⟩ := listSize_bound l hsz
+  unfold ListP.primitiveElem
+  split
+  · exact trivial
+  · rename_i hc
+    simp only [not_or, not_and, Classical.not_not, Int.not_lt] at hc
+    obtain ⟨hnb, hnc, hcc⟩ := hc
+    have hcb : contentBytes l = (l.size.DataSize + 8 * l.size.PointerCount) * l.length := by
+      unfold contentBytes; rw [if_neg hnb]
+    rw [hcb] at hb1 hb2
+    have hel := elem_bound i l.length _ hi.2 etn
+    have hnn : 0 ≤ i * (l.size.DataSize + 8 * l.size.PointerCount) := Int.mul_nonneg hi.1 etn
+    rw [Int.mul_comm _ l.length] at hb1 hb2
+    simp only
+    rw [ets, wrapI32_id i (by omega), element_spec l.off i _ (by unfold InU32; omega) ⟨etn, etb⟩ (by omega)]
+    generalize i * (l.size.DataSize + 8 * l.size.PointerCount) = p at *
+    generalize l.length * (l.size.DataSize + 8 * l.size.PointerCount) = q at *
+    have hcond : ¬ (l.off + p > 4294967288 ∨ l.off + p < 0) := by omega
+    rw [if_neg hcond]
+    simp only [Bool.not_true, Bool.false_eq_true, ↓reduceIte, Safe]
+    refine ⟨by omega, by omega, hnb, hnc, ?_⟩
+    intro hcomp
+    have := hcc hcomp
+    omega
+
+/-- `PointerList.At(i)` for `0 ≤ i < Len()` -/
+theorem list_ptrAt_safe (m : Msg) (l : ListP) (i rl : Int) (hm : MsgOK m) (hw : ListWF m l) (hs : SegOK m l.seg)
+    (hi : 0 ≤ i ∧ i < l.length) (hd : 0 ≤ l.depth ∧ l.depth < 18446744073709551616) (hrl : 0 ≤ rl) :
+    Safe (l.ptrAt m i rl).1 (PtrOK m l.depth rl (l.ptrAt m i rl).2) ∧ 0 ≤ (l.ptrAt m i rl).2 ∧ (l.ptrAt m i rl).2 ≤ rl := by
+  have hpe := primitiveElem_ok m l i ⟨0, 1⟩ hw hi
+  unfold ListP.ptrAt
+  cases hp : l.primitiveElem i ⟨0, 1⟩ with
+  | error e => rw [hp] at hpe; cases e <;> simp_all [Safe]
+  | ok addr =>
+    rw [hp] at hpe; simp only [Safe] at hpe
+    obtain ⟨ha0, ha1, hnb, hnc, hcc⟩ := hpe
+    simp only
+    have hsz8 : 8 ≤ l.size.DataSize + 8 * l.size.PointerCount := by
+      obtain ⟨⟨a, b, c, d⟩, _⟩ := hw
+      by_cases hcomp : l.flags = isCompositeList
+      · have := hcc hcomp; omega
+      · have := hnc hcomp; rw [this]; show (8:Int) ≤ 0 + 8 * 1; omega
+    exact readPtr_wf m l.seg addr l.depth rl hm hs ha0 (by omega) hd hrl
+
+/-- `UInt8List.At … UInt64List.At` for `0 ≤ i < Len()` (a list of another element size reads as 0) -/
+theorem list_uintAt_safe (m : Msg) (l : ListP) (i : Int) (w : Nat) (hm : MsgOK m) (hw : ListWF m l)
+    (hi : 0 ≤ i ∧ i < l.length) (hww : 1 ≤ w ∧ w ≤ 8) : Safe (l.uintAt m i w) (fun v => 0 ≤ v) := by
+  have hpe := primitiveElem_ok m l i ⟨w, 0⟩ hw hi
+  unfold ListP.uintAt
+  cases hp : l.primitiveElem i ⟨w, 0⟩ with
+  | error e => simp [Safe]
+  | ok addr =>
+    rw [hp] at hpe; simp only [Safe] at hpe
+    obtain ⟨ha0, ha1, hnb, hnc, hcc⟩ := hpe
+    simp only
+    have hszw : (w : Int) ≤ l.size.DataSize + 8 * l.size.PointerCount := by
+      obtain ⟨⟨a, b, c, d⟩, _⟩ := hw
+      by_cases hcomp : l.flags = isCompositeList
+      · have := hcc hcomp; omega
+      · have := hnc hcomp; rw [this]; show (w:Int) ≤ w + 8 * 0; omega
+    obtain ⟨v, hv, _⟩ := readUint_ok m l.seg addr w hm ha0 hww.2 (by omega)
+    rw [hv]; simp only [Safe]; omega
+
+/-- `BitList.At(i)` for `0 ≤ i < Len()` — every index up to the maximal list length `2^29 - 1`
+    (fails on the pinned tree for `i ≥ 2^22`, repaired by 95dc3e5) -/
+theorem list_bitAt_safe (m : Msg) (l : ListP) (i : Int) (hm : MsgOK m) (hw : ListWF m l)
+    (hi : 0 ≤ i ∧ i < l.length) : Safe (l.bitAt m i) (fun _ => True) := by
+  obtain ⟨hsz, h0, hl0, hl1, hb1, hb2, hfl⟩ := hw
+  unfold ListP.bitAt
+  split
+  · exact trivial
+  · rename_i hb
+    simp only [ne_eq, Classical.not_not] at hb
+    have hcb : contentBytes l = (l.length + 7) / 8 := by unfold contentBytes; rw [if_pos hb]
+    rw [hcb] at hb1 hb2
+    simp only [Err.bind]
+    unfold BitOffset_offset address_addSizeUnchecked
+    rw [wrapU32_id i (by omega), wrapU32_id (i / 8) (by omega), wrapU32_id (i / 8) (by omega), wrapU32_id (i / 8) (by omega),
+      wrapU32_id (l.off + i / 8) (by omega)]
+    obtain ⟨v, hv, _⟩ := readUint_ok m l.seg (l.off + i / 8) 1 hm (by omega) (by omega) (by omega)
+    rw [hv]; exact trivial
+
+theorem sliceBytes_ok (m : Msg) (seg : Nat) (off n : Int) (hm : MsgOK m) (h0 : 0 ≤ off) (hn : 0 ≤ n)
+    (hb : off + n ≤ m.segLen seg) : ∃ b, sliceBytes m seg off n = .ok b := by
+  have h1 := hm seg
+  unfold sliceBytes sliceOk address_addSizeUnchecked
+  rw [wrapU32_id n (by omega), wrapU32_id (off + n) (by omega)]
+  have : (decide (off ≤ off + n) && decide (off + n ≤ m.segLen seg)) = true := by
+    simp only [Bool.and_eq_true, decide_eq_true_eq]; omega
+  rw [if_pos this]
+  exact ⟨_, rfl⟩
+
+/-- `Ptr.Text / TextBytes / Data` on a list pointer -/
+theorem list_text_data_safe (m : Msg) (l : ListP) (hm : MsgOK m) (hw : ListWF m l) :
+    Safe (l.text m) (fun _ => True) ∧ Safe (l.data m) (fun _ => True) := by
+  obtain ⟨hsz, h0, hl0, hl1, hb1, hb2, hfl, hbz⟩ := hw
+  unfold ListP.text ListP.data
+  by_cases h1 : l.isOneByte = true
+  · simp only [h1, Bool.not_true, Bool.false_eq_true, ↓reduceIte]
+    unfold ListP.isOneByte ObjectSize_isOneByte at h1
+    simp only [Bool.and_eq_true, decide_eq_true_eq] at h1
+    obtain ⟨⟨hds, hpc⟩, hnc⟩ := h1
+    have hnb : l.flags ≠ isBitList := by
+      intro hb; have := hbz hb; omega
+    have hcb : contentBytes l = l.length := by
+      unfold contentBytes; rw [if_neg hnb, hds, hpc]; omega
+    rw [hcb] at hb1 hb2
+    obtain ⟨b, hb⟩ := sliceBytes_ok m l.seg l.off (wrapU32 l.length) hm h0 (by rw [wrapU32_id _ (by omega)]; omega)
+      (by rw [wrapU32_id _ (by omega)]; omega)
+    rw [hb]
+    simp only [Err.bind]
+    constructor
+    · split <;> exact trivial
+    · exact trivial
+  · simp [h1, Safe]
+
 end Capnp.Props.C01
